@@ -163,8 +163,8 @@ impl FarmSim {
         let mut funds = vec![];
         let mut apply: Box<dyn FnOnce(&mut FarmSim)> = Box::new(|_| {});
         let mut valid = true;
-        if let fm::ExecuteMsg::UpdateConfig { create_farm_fee, max_concurrent_farms, farm_expiration_time, emergency_unlock_penalty, .. } = &mut msg {
-            match which % 6 {
+        if let fm::ExecuteMsg::UpdateConfig { create_farm_fee, max_concurrent_farms, farm_expiration_time, emergency_unlock_penalty, min_unlocking_duration, max_unlocking_duration, .. } = &mut msg {
+            match which % 8 {
                 0 => {
                     let bp = (value % 10_001) as u64;
                     *emergency_unlock_penalty = Some(dec_from_bp(bp));
@@ -190,13 +190,27 @@ impl FarmSim {
                     *emergency_unlock_penalty = Some(dec_from_bp(5000));
                     valid = false;
                 }
+                6 => {
+                    // a new maximum for NEW positions, inside [current minimum, one year]
+                    let span = YEAR - self.min_dur;
+                    let m = self.min_dur + if span == 0 { 0 } else { (value as u64 * 40_503) % (span + 1) };
+                    *max_unlocking_duration = Some(m);
+                    apply = Box::new(move |s| s.max_dur = m);
+                }
+                7 => {
+                    // a new minimum, inside [one day, current maximum]
+                    let span = self.max_dur - DAY;
+                    let m = DAY + if span == 0 { 0 } else { (value as u64 * 40_503) % (span + 1) };
+                    *min_unlocking_duration = Some(m);
+                    apply = Box::new(move |s| s.min_dur = m);
+                }
                 _ => {
                     funds = vec![coin(1, "uom")];
                     valid = false;
                 }
             }
         }
-        let what = format!("step {}: farm manager UpdateConfig variant {} by {}", self.steps, which % 6, self.label(sender.as_str()));
+        let what = format!("step {}: farm manager UpdateConfig variant {} by {}", self.steps, which % 8, self.label(sender.as_str()));
         let pre = Snapshot::take(&self.w);
         let r = self.w.fm_exec(&sender, &msg, &funds);
         let post = Snapshot::take(&self.w);
